@@ -15,36 +15,6 @@ func init() {
 	registry["C12"] = []func(*Report){ruleC12}
 }
 
-// concatSeqs flattens a string built by + (through phis) into the possible leaf sequences.
-// atomic values (e.g. the signed string) are kept as single leaves.
-func concatSeqs(v ssa.Value, atomic map[ssa.Value]bool, depth int) [][]ssa.Value {
-	if depth > 12 || atomic[v] {
-		return [][]ssa.Value{{v}}
-	}
-	switch x := v.(type) {
-	case *ssa.BinOp:
-		if x.Op == token.ADD && isStringType(x.Type()) {
-			var out [][]ssa.Value
-			for _, l := range concatSeqs(x.X, atomic, depth+1) {
-				for _, r := range concatSeqs(x.Y, atomic, depth+1) {
-					out = append(out, append(append([]ssa.Value{}, l...), r...))
-				}
-			}
-			if len(out) > 64 {
-				out = out[:64]
-			}
-			return out
-		}
-	case *ssa.Phi:
-		var out [][]ssa.Value
-		for _, e := range x.Edges {
-			out = append(out, concatSeqs(e, atomic, depth+1)...)
-		}
-		return out
-	}
-	return [][]ssa.Value{{v}}
-}
-
 func isStringType(t types.Type) bool {
 	b, ok := t.Underlying().(*types.Basic)
 	return ok && b.Info()&types.IsString != 0
